@@ -594,6 +594,21 @@ func deriveTripCount(loop *Loop) {
 		}
 	}
 
+	// The closed forms below are only right when the step moves the variable TOWARDS the limit.
+	// With a parameter bound the block above cannot tell (start/limit are not constants), so a
+	// loop such as 'for i := 2; i < n; i--' was annotated with a positive count although it
+	// either never runs or never ends. Require a constant step of the right sign.
+	if !isNEQ {
+		if stepC == nil {
+			loop.TripCount = &SCEVUnknown{Value: nil}
+			return
+		}
+		if (isUpCounting && stepC.Sign() <= 0) || (!isUpCounting && stepC.Sign() >= 0) {
+			loop.TripCount = &SCEVUnknown{Value: nil}
+			return
+		}
+	}
+
 	if isNEQ {
 		// NEQ only valid for step 1 or -1
 		stepVal := iv.Step.EvaluateAt(nil, nil)
